@@ -12,6 +12,10 @@
      MS id actvar actex unshr V {alpha grad lin ex p idx diag}* E {orig y act vsum diag var[P] avar[P]}*   current state (no output)
      MO id smo v w | shrink eps useShrinking | unshrink | addlin d(n*P)       -> MS line of mstep applied to the current state
      MK ...                                                                   ignored (checked by tools/c16.py)
+     SE id i0 j0                                                              -> V violation i j   (box_select / simplex_select on the current state)
+     SO id                                                                    -> V violation i j   (selection with maxGainBox as it was before c9be7fe4)
+     KK id                                                                    -> V checkKKT        (kkt on the current state)
+     MV id eps maxiter shrinking                                              -> MS line of the final state of mc_solve_steps + " X exit iterations"
    Linear solvers (C16Linear):
      LS id type K d C eps y q wx[K] a[K+1] x[d] w[K*d]      -> V kkt gain a'[K+1] mu[K] w'[K*d]     (lin_step)
      BL id bound reg offset n d sched[n] alpha[n] w[d] ysign[n] x[n*d]  -> V alpha'[n] w'[d]        (boxlin_epoch) *)
@@ -41,7 +45,7 @@ let tab_n (a : int array) : nat -> nat = fun i -> let j = int_of_nat i in if j <
 let tab2_n (a : int array array) : nat -> nat -> nat = fun e p ->
   let e' = int_of_nat e and p' = int_of_nat p in
   if e' < Array.length a && p' < Array.length a.(e') then nat_of_int a.(e').(p') else O
-let print_state id (c : ctx) (s : float mst) =
+let rec print_state_x id (c : ctx) (s : float mst) (suffix : string) =
   let b = Buffer.create 4096 in
   let nv = c.cp * c.n in
   Buffer.add_string b (Printf.sprintf "MS %s %d %d %d V" id (int_of_nat s.actvar) (int_of_nat s.actex) (if s.munshr then 1 else 0));
@@ -59,7 +63,9 @@ let print_state id (c : ctx) (s : float mst) =
     for p = 0 to c.cp - 1 do Buffer.add_string b (Printf.sprintf " %d" (int_of_nat (s.evar e' (nat_of_int p)))) done;
     for p = 0 to c.cp - 1 do Buffer.add_string b (Printf.sprintf " %d" (int_of_nat (s.eavar e' (nat_of_int p)))) done
   done;
+  Buffer.add_string b suffix;
   print_endline (Buffer.contents b)
+and print_state id c s = print_state_x id c s ""
 
 let handle_m (t : string array) =
   let f k = fos t.(k) and i k = int_of_string t.(k) in
@@ -108,6 +114,20 @@ let handle_m (t : string array) =
                      vidx = tab_n (ia 5); vdiag = tab_f (fa 6); eorig = tab_n (eia 0); ey = tab_n (eia 1); eact = tab_n (eia 2);
                      evar = tab2_n evar; eavar = tab2_n eavar; evsum = tab_f (efa 3); ediag = tab_f (efa 4);
                      actex = nat_of_int actex; actvar = nat_of_int actvar; munshr = unshr }
+     | "SE" | "SO" | "KK" | "MV" ->
+       let s = match !cur with Some s -> s | None -> failwith "selection before MS" in
+       (match t.(0) with
+        | "SE" ->
+          let (v, (a, b)) = if c.simplex then simplex_select fops micro np ncl c.cc mrow mdef k0 s
+                            else box_select fops micro np ncl c.cc mrow mdef k0 s (nat_of_int (i 2)) (nat_of_int (i 3)) in
+          Printf.printf "V %s %d %d\n" (pf v) (int_of_nat a) (int_of_nat b)
+        | "SO" ->
+          let (v, (a, b)) = old_simplex_select fops micro np ncl c.cc mrow mdef k0 s in
+          Printf.printf "V %s %d %d\n" (pf v) (int_of_nat a) (int_of_nat b)
+        | "KK" -> Printf.printf "V %s\n" (pf (kkt fops c.cc c.simplex s))
+        | _ ->
+          let r = mc_solve_steps fops lowest tiny micro np ncl nn c.cc mrow mdef k0 c.simplex (i 4 <> 0) (f 2) (nat_of_int (i 3)) O (Cnt O) s in
+          print_state_x t.(1) c r.sr_state (Printf.sprintf " X %s %d" (match r.sr_exit with XAccuracy -> "accuracy" | XMaxIter -> "maxiter") (int_of_nat r.sr_iter)))
      | "MO" ->
        let s = match !cur with Some s -> s | None -> failwith "MO before MS" in
        let shrinking = ref true in
@@ -166,7 +186,7 @@ let () =
       let l = input_line ic in
       let t = Array.of_list (List.filter (fun x -> x <> "") (String.split_on_char ' ' l)) in
       if Array.length t > 0 && (t.(0) = "LS" || t.(0) = "BL") then handle_lin t
-      else if Array.length t > 0 && (t.(0) = "MH" || t.(0) = "MI" || t.(0) = "MS" || t.(0) = "MO" || t.(0) = "MK") then handle_m t
+      else if Array.length t > 0 && (t.(0) = "MH" || t.(0) = "MI" || t.(0) = "MS" || t.(0) = "MO" || t.(0) = "MK" || t.(0) = "SE" || t.(0) = "SO" || t.(0) = "KK" || t.(0) = "MV") then handle_m t
       else if Array.length t > 0 && (String.length t.(0) > 0 && t.(0).[0] <> '#') then begin
         let f k = fos t.(k) in
         let out = Buffer.create 256 in
